@@ -1,5 +1,5 @@
 INIT Init
 NEXT Next
 CONSTANTS
-  Deep = FALSE
+  Deep = TRUE
 INVARIANTS Total EmitVec
